@@ -123,8 +123,64 @@ def x4_callers(prog, ctx, gate):
     ctx.counts["X4 callers of the gate"] = n
 
 
+def x7_defaults(prog, ctx, gate):
+    """X7: a process that has set no restriction has none: the flags start as "not set" (owner, group, permissions) and "links are
+    followed" - the values econf_reset_security_settings() goes back to.  And the directory whose permissions are checked is the
+    directory of the file being checked (dirname of a copy of its name)."""
+    want = {"file_owner_set": 0, "file_group_set": 0, "file_permissions_set": 0, "allow_follow_symlinks": 1}
+    for name, w in sorted(want.items()):
+        g = prog.globals.get(name)
+        if g is None:
+            ctx.inconclusive("X7", "%s starts %s" % (name, "set" if w else "clear"), "", "global vanished (regrouped?)")
+            continue
+        v = None
+        if g.init is not None and g.init >= 0 and g.nodes_j:
+            from sa.ast import Node as _Node
+            nj = g.nodes_j[g.init]
+            v = nj.get("val") if nj.get("val") is not None else nj.get("value")
+            if v is None:
+                # through casts / literals kept as sub-nodes
+                for x in g.nodes_j:
+                    if x and x.get("k") in ("IntegerLiteral", "CXXBoolLiteralExpr") and x.get("val") is not None:
+                        v = x.get("val")
+        elif g.init is None or g.init < 0:
+            v = 0           # static storage: zero
+        try:
+            v = int(v)
+        except (TypeError, ValueError):
+            v = None
+        where = "%s:%s" % (g.file, g.line)
+        if v is None:
+            ctx.inconclusive("X7", "%s starts %s" % (name, "set" if w else "clear"), where, "initial value not read")
+        elif bool(v) == bool(w):
+            ctx.ok("X7", "%s starts %s" % (name, "set" if w else "clear"), where, "initial value %s" % v)
+        else:
+            ctx.fail("X7", "%s starts %s" % (name, "set" if w else "clear"), where,
+                     "the flag starts as %s: a process that never called a restriction setter %s" % (
+                         v, "refuses every symbolic link" if name == "allow_follow_symlinks" else "has files refused against an owner / group / mode of 0 it never asked for"),
+                     key="initial:%s" % name)
+    # the directory check looks at dirname(<the file's name>)
+    dn = gate.calls(("dirname", "__xpg_dirname"))
+    for c in dn:
+        a = c.call_args()[0].strip()
+        ok = False
+        if a.k == "DeclRefExpr" and a.j.get("dk") == "local":
+            defs = [r for l, r, st in gate.assignments() if (l["name"] if isinstance(l, dict) else render(l)) == a.j["name"] and r is not None]
+            ok = bool(defs) and all(r.strip().k == "CallExpr" and r.strip().j.get("callee") in ("strdup", "strndup") and query.refs_param(r.strip().call_args()[0], "file_name")
+                                    for r in defs)
+        elif query.refs_param(a, "file_name"):
+            ok = True
+        if ok:
+            ctx.ok("X7", "the directory checked is the file's directory", c.where, "dirname(copy of file_name)")
+        else:
+            ctx.fail("X7", "the directory checked is the file's directory", c.where,
+                     "`%s`: not the directory part of the name being checked - the permission rule for directories is applied to another directory (\".\" for NULL)" % render(c)[:60],
+                     key="dirname-source")
+
+
 def run(prog, ctx):
     gate, parser = common.choke_point(prog, ctx, "X2")
+    x7_defaults(prog, ctx, gate)
     x4_callers(prog, ctx, gate)
     # X5: a refusal aborts the whole read - the code travels up unchanged and no further file is read (= C06.G4), and no loop over
     # files is left with success (own_rules.no_early_success)
